@@ -1036,6 +1036,11 @@ func (e *Engine) execGo(st *State, s *ast.GoStmt) []*State {
 		if lit, ok := ast.Unparen(s.Call.Fun).(*ast.FuncLit); ok {
 			ev.FnLit = lit
 		}
+		// a declared function started with `go` is a subject of its own (entry function); only literals are walked here.
+		if ev.FnLit == nil {
+			out = append(out, c.st)
+			continue
+		}
 		// run the spawned function on a copy; only its events are kept.
 		cp := c.st.clone()
 		base := len(cp.Events)
